@@ -846,6 +846,32 @@ def h_all(ax, ip, inst, fid, bi, st, t, fn, args, argpl, dty):
     return Bo(t_all or ln.lo == 0, f_any), st
 
 
+def h_any(ax, ip, inst, fid, bi, st, t, fn, args, argpl, dty):
+    """`iter.any(pred)`, the dual of h_all: may be true iff the predicate may be true on some part; may be false iff it may be false on every part
+    (or the iterator may be empty)."""
+    r = ip.materialize(args[0])
+    it = ax.deref(ip, st, r)
+    e, ln = _iter_parts(ip, it)
+    if e is None:
+        return Bo(True, True), st
+    if ln.hi == 0:
+        return Bo(False, True), st
+    head = _iter_head(it) if isinstance(it, Ax) else None
+    parts = [it.data[0]] if head is None else ([head] + ([it.data[0]] if ln.hi > 1 else []))
+    t_any, f_all = False, True
+    for p_ in parts:
+        res = ip.call_value(args[1], [p_], st, inst, bi)
+        if res is DIVERGE:
+            return DIVERGE
+        b, st = res
+        b = ip.materialize(b)
+        if not isinstance(b, Bo):
+            return Bo(True, True), st
+        t_any = t_any or b.t
+        f_all = f_all and b.f
+    return Bo(t_any, f_all or ln.lo == 0), st
+
+
 def h_sum(ax, ip, inst, fid, bi, st, t, fn, args, argpl, dty):
     e, ln = _iter_parts(ip, args[0])
     tt = ax.F.types[dty] if dty is not None else {"k": "?"}
@@ -1046,7 +1072,7 @@ TRAIT_AXIOMS = {
     ("Index", "index"): h_index(False), ("IndexMut", "index_mut"): h_index(True),
     ("IntoIterator", "into_iter"): h_into_iter,
     ("Iterator", "next"): h_iter_next, ("Iterator", "zip"): h_zip, ("Iterator", "rev"): h_rev, ("Iterator", "copied"): h_copied,
-    ("Iterator", "cloned"): h_copied, ("Iterator", "enumerate"): h_enumerate, ("Iterator", "map"): h_map, ("Iterator", "all"): h_all,
+    ("Iterator", "cloned"): h_copied, ("Iterator", "enumerate"): h_enumerate, ("Iterator", "map"): h_map, ("Iterator", "all"): h_all, ("Iterator", "any"): h_any,
     ("Iterator", "sum"): h_sum, ("Iterator", "collect"): h_collect, ("Iterator", "fold"): h_fold,
     ("Ord", "max"): h_minmax_ord(False), ("Ord", "min"): h_minmax_ord(True),
 }
